@@ -6,6 +6,7 @@ import Driver.C19
 import Driver.Table
 import Driver.Lookup
 import Driver.C11
+import Driver.C08
 /-! Line-protocol driver. Usage: `drv <property>`; stdin: `op args… | impl-output`;
     stdout: one `MISMATCH`/`MONITOR` line per problem and a final `DONE` summary with coverage tags. -/
 open Drv
@@ -87,6 +88,7 @@ def main (args : List String) : IO UInt32 := do
   | ["table", prop] => finish (← loopStateful (Drv.Table.step prop) h {} {})
   | ["lookup"] => finish (← loopStateful Drv.Lookup.step h {} {})
   | ["C11"] => finish (← loopStateless Drv.C11.step h {})
+  | ["C08"] => finish (← loopStateless Drv.C08.step h {})
   | ["inrange"] => finish (← loopStateless Drv.Store.inRangeStep h {})
   | ["store", prop] => finish (← loopStateful (Drv.Store.step prop) h {} {})
   | _ => IO.eprintln "usage: drv <property>"; return 2
